@@ -74,6 +74,12 @@ def k2_contexts(tier):
             out.append(_c("A DF%d ZERO U%d" % (df, U), L, z, U=U, CA=0, caps=NO_CAPS, tags=("A", "alt-zero", "df%d" % df)))
             m1 = dict(base); m1[26] = 1
             out.append(_c("A DF%d M1 U%d" % (df, U), L, m1, U=U, CA=0, caps=NO_CAPS, tags=("A", "alt-m1", "df%d" % df)))
+    for cval in range(8):
+        fx = df_fixed(4); fx[26] = 0; fx[28] = 0
+        fx[20] = (cval >> 2) & 1   # C1
+        fx[22] = (cval >> 1) & 1   # C2
+        fx[24] = cval & 1          # C4
+        out.append(_c("A DF4 Q0 C%d U1" % cval, 14, fx, U=True, CA=0, caps=NO_CAPS, tags=("A", "gillham", "c%d" % cval)))
     tcs = range(9, 19) if thorough else (9, 18)
     for tc in tcs:
         for U in (False, True):
